@@ -9,4 +9,6 @@ mkdir -p .bin evidence replays
 ./check build
 # pre-warm the race-detector build of the free-running pass and the conformance leg
 (cd harness && go build -race -o /dev/null ./cmd/racepass && go build -o /dev/null ./cmd/conf)
+# the exploration engine against its own planted bugs and their correct twins
+./check selftest | tail -1
 echo "setup ok"
